@@ -99,6 +99,17 @@ def gen_src(rng, avoid_real_plugins=True):
                 elif len(c['loc']) >= r:
                     c['loc'] = c['loc'][:len(c['loc']) - r]
         cs = [c for c in cs if callout_size(c) % 4 == 0 and callout_size(c) < 256]
+        if cs and rng.random() < 0.25:
+            # a callout whose first two bytes (size, flags) read as a substructure type: 0x50 0x45 = "PE", 0x4C.. etc.
+            c = gen_callout(rng)
+            c['pce'] = None
+            c['mru'] = None
+            c['flags'] = 0x45
+            base = callout_size(c) - len(c['loc'])
+            if base <= 80:
+                c['loc'] = (c['loc'] + b'L' * 80)[:80 - base]
+                if callout_size(c) == 80:
+                    cs.insert(rng.randrange(1, len(cs) + 1), c)
         callouts = {'subId': rng.choice([0xC0, bnum(rng, 8)]), 'subFlags': bnum(rng, 8), 'callouts': cs}
     return {'version': bnum(rng, 8), 'flagsHi': bnum(rng, 8) & 0xFE, 'resv1': bnum(rng, 8), 'wordCount': rng.choice([0, 1, 2, 3, 8, 9, 9, 9]),
             'resv2': bnum(rng, 16), 'size': bnum(rng, 16), 'words': [bnum(rng, 32) for _ in range(8)], 'ascii': asc, 'callouts': callouts}
@@ -153,7 +164,8 @@ def gen_section(rng, avoid_real_plugins=True):
                 hdr['comp'] = 0x2C01
         return sec
     if kind == 'named':
-        sid = rng.choice(KNOWN_IDS)
+        # besides the hexdump-only names: ids that read as callout substructure types ("PE", "MR", "ID")
+        sid = rng.choice(KNOWN_IDS + ['PE', 'MR', 'ID'])
     else:
         while True:
             sid = bytes(rng.randrange(256) for _ in range(2)).decode('latin1')
